@@ -2,9 +2,11 @@
 //!
 //!   itv replay            scenario JSON lines on stdin -> result JSON lines on stdout
 //!   itv record <m> <n>    n seeded random runs of module m -> ndjson trace on stdout
+mod c03;
 mod c04;
 mod common;
 mod keys;
+mod model;
 
 use serde_json::{json, Value};
 use std::io::{BufRead, Write};
@@ -15,6 +17,7 @@ struct State {
 
 fn dispatch(st: &mut State, scn: &Value) -> Value {
     match scn["m"].as_str().unwrap_or("") {
+        "C03" => c03::run(scn, false),
         "C04" => st.c04.get_or_insert_with(|| c04::Ctx::new(&common::family())).run(scn, true, false),
         m => json!({"error": format!("unknown module {m}")}),
     }
@@ -67,6 +70,18 @@ fn main() {
                             writeln!(out, "{}", e).unwrap();
                         }
                         writeln!(out, "{}", json!({"ev": "result", "out": r["outs"][0]})).unwrap();
+                    }
+                }
+                "C03" => {
+                    let mut rng = common::rng(3);
+                    for run in 0..n {
+                        let scn = c03::random_scn(&mut rng);
+                        let r = c03::run(&scn, true);
+                        writeln!(out, "{}", c03::reset_event(&scn, run)).unwrap();
+                        for e in r["ev"].as_array().unwrap() {
+                            writeln!(out, "{}", e).unwrap();
+                        }
+                        writeln!(out, "{}", json!({"ev": "result", "out": r["out"]})).unwrap();
                     }
                 }
                 _ => {
